@@ -147,8 +147,16 @@ def engine_runner(prop):
 
 
 RUNNERS = {'C10': runner_c10, 'C09': runner_c09, 'C14': runner_c14, 'C18': runner_c18, 'C20': runner_c20}
-for _p in ('C01', 'C02', 'C03', 'C04', 'C05', 'C06', 'C07', 'C08', 'C16', 'C19'):
+for _p in ('C01', 'C02', 'C03', 'C04', 'C05', 'C06', 'C07', 'C08', 'C11', 'C16', 'C19'):
     RUNNERS[_p] = engine_runner(_p)
+
+
+def runner_c12(tier, seed, workdir):
+    import engine_props
+    return engine_props.run_c12(tier, seed)
+
+
+RUNNERS['C12'] = runner_c12
 
 
 def check(prop, tier, seed):
@@ -236,6 +244,10 @@ def replay(prop, path):
         print(json.dumps(case, indent=1)[:2000])
         print("re-run with ./check C14 quick (the case is part of the seed's corpus); expected vs observed above")
         return 1
+    if case.get('kind') == 'engine-variant':
+        import engine_props
+        common.ocaml_build(); common.harness_build()
+        return engine_props.replay_variant(case, workdir)
     if case.get('kind') == 'model':
         import c20
         common.translate(); common.ocaml_build(); common.harness_build()
